@@ -183,5 +183,89 @@ Proof.
   intros HI HR Hg Hr H. pose proof (I_shape _ HI) as Hsh. unfold step_deq in H. unfold R_sb in HR.
   inv_step H; inv_helpers; injection H as <-; subst; cbn [dp_shape] in Hsh; cbn [ev_g] in Hg; try injection Hg as ->.
   all: try (cbn [sb_step]; eexists; split; [reflexivity|]; unfold R_sb; bcsimpl; try exact I; try exact HR; fail).
-  all: match goal with |- ?G => idtac G end.
-Abort.
+  - (* DeqRet qos 0 *)
+    cbn [sb_step]. eexists; split; [reflexivity|]. unfold R_sb.
+    destruct backack; bcsimpl; (exists g; exists m; exists 0; split; [exact Hr|split; [reflexivity|left; assumption]]).
+  - (* DeqRet qos>0 *)
+    cbn [sb_step]. eexists; split; [reflexivity|]. unfold R_sb. bcsimpl.
+    exists g, None. split; [exact Hr|apply aget_aput_same].
+  - (* NextId *)
+    cbn [sb_step]. eexists; split; [reflexivity|]. unfold R_sb. bcsimpl.
+    destruct HR as (g' & o & G & A). exists g', m, id, o. repeat split; assumption.
+  - (* Save ok *)
+    destruct HR as (g' & m & id & o & G & -> & A). rewrite Hr in G. injection G as <-.
+    match goal with Hq : packet_eqb _ _ = true |- _ => apply packet_eqb_publish_l in Hq; subst end.
+    cbn [sb_step]. rewrite A. eexists; split; [reflexivity|]. unfold R_sb.
+    destruct ba; bcsimpl; (exists g; exists m; exists id; split; [exact Hr|split; [reflexivity|right; apply aget_aput_same]]).
+  - (* Send ok *)
+    destruct HR as (g' & m & id & G & -> & A). rewrite Hr in G. injection G as <-.
+    match goal with Hq : packet_eqb _ _ = true |- _ => apply packet_eqb_publish_l in Hq; subst end.
+    cbn [sb_step]. destruct A as [A|A].
+    + rewrite A. eexists; split; [reflexivity|]. unfold R_sb. bcsimpl. exact I.
+    + rewrite A, packet_eqb_publish_refl, message_eqb_refl. cbn [andb].
+      destruct (m_qos m =? 0); eexists; (split; [reflexivity|]); unfold R_sb; bcsimpl; exact I.
+  - (* Send fail *)
+    destruct HR as (g' & m & id & G & -> & A). rewrite Hr in G. injection G as <-.
+    match goal with Hq : packet_eqb _ _ = true |- _ => apply packet_eqb_publish_l in Hq; subst end.
+    cbn [sb_step]. destruct A as [A|A].
+    + rewrite A. eexists; split; [reflexivity|]. unfold R_sb. bcsimpl. exact I.
+    + rewrite A, packet_eqb_publish_refl, message_eqb_refl. cbn [andb].
+      destruct (m_qos m =? 0); eexists; (split; [reflexivity|]); unfold R_sb; bcsimpl; exact I.
+Qed.
+
+Lemma sb_same s s' t : same_pd s s' -> R_sb s t -> R_sb s' t.
+Proof. intros Hs. apply sb_frame; [apply (sp_dp _ _ Hs)|apply (sp_gdeq _ _ Hs)|reflexivity]. Qed.
+
+Lemma sb_frozen s s' t : frozen s s' -> R_sb s' t.
+Proof. intros Hf. unfold R_sb. rewrite (fz_dp _ _ Hf). destruct (dp s); exact I. Qed.
+
+Lemma sb_learned s s1 t : INV s -> learned s s1 -> R_sb s t -> R_sb s1 t.
+Proof.
+  intros HI [->|(g & _ & [[_ ->]|[[E ->]|[[_ ->]|[_ ->]]]])] HR; try exact HR.
+  unfold R_sb in *. bcsimpl. pose proof (I_busy _ HI) as Hb.
+  destruct (dp s); try exact I; exfalso; apply Hb; try reflexivity; exact E.
+Qed.
+
+Lemma sb_step_clo t e : clo_event e -> sb_step t e = Some t.
+Proof. destruct e; try contradiction; reflexivity. Qed.
+
+Lemma sb_step_cl t e : cl_event e -> sb_step t e = Some t.
+Proof. destruct e; try contradiction; reflexivity. Qed.
+
+Lemma learned_role_kept s s1 : learned s s1 ->
+  (forall g, gproc s = Some g -> gproc s1 = Some g) /\ (forall g, gdeq s = Some g -> gdeq s1 = Some g).
+Proof.
+  intros [->|(g & _ & [[E ->]|[[E ->]|[[_ ->]|[_ ->]]]])]; split; intros g' Hg'; bcsimpl; try assumption; congruence.
+Qed.
+
+Lemma sb_step_ok s t e s' : INV s -> R_sb s t -> step s e = Some s' ->
+  exists t', sb_step t e = Some t' /\ R_sb s' t'.
+Proof.
+  intros HI HR H. apply step_inv in H.
+  destruct H as [He Ho ->|He Ho ->|He Hq ->|Hc|g s1 Hg Hl Hr Ho Hp|g s1 Hg Hl Hr Ho Hnp Hd
+                |g s1 Hg Hl Hr Ho Hnp Hnd Ha|g s1 Hg Hl Hr Ho Hc|He Hc|g He Ho ->].
+  - subst e. exists []. split; [reflexivity|]. unfold R_sb. bcsimpl. exact I.
+  - subst e. exists t. split; [reflexivity|exact HR].
+  - subst e. exists t. split; [reflexivity|exact HR].
+  - apply step_clo_sum in Hc as (He & Hs & _). exists t. split; [apply sb_step_clo; exact He|eapply sb_same; eassumption].
+  - eapply sb_proc; [eapply INV_learned; eassumption|exact (sb_learned _ _ _ HI Hl HR)|exact Hg|exact Hr|exact Hp].
+  - eapply sb_deq; [eapply INV_learned; eassumption|exact (sb_learned _ _ _ HI Hl HR)|exact Hg|exact Hr|exact Hd].
+  - pose proof (INV_learned _ _ Hl HI) as HI1. pose proof (step_ack_sum _ _ _ Ha) as (Hs & _ & He).
+    exists t. split; [|eapply sb_same; [exact Hs|exact (sb_learned _ _ _ HI Hl HR)]].
+    destruct e; try contradiction; try reflexivity.
+    destruct async; [|contradiction]. destruct He as (q' & Ht & _).
+    apply sb_step_tx_other. apply ack_not_fresh. eapply ackq_take_is_ack; [exact Ht|apply (I_ackq _ HI1)].
+  - apply step_cleanup_sum in Hc as (He & [(Hs & _)|Hf]); exists t; (split; [apply sb_step_cl; exact He|]).
+    + eapply sb_same; [exact Hs|exact (sb_learned _ _ _ HI Hl HR)].
+    + eapply sb_frozen; exact Hf.
+  - apply step_cleanup_sum in Hc as (He' & [(Hs & _)|Hf]); exists t; (split; [apply sb_step_cl; exact He'|]).
+    + eapply sb_same; eassumption.
+    + eapply sb_frozen; exact Hf.
+  - subst e. exists t. split; [reflexivity|]. eapply sb_frame; [| |reflexivity|exact HR]; reflexivity.
+Qed.
+
+Theorem c08_store_before_send_holds : forall es s, bc_run es = Some s -> c08_store_before_send es = true.
+Proof.
+  apply (scan_sound_inv sb_step INV R_sb INV_init INV_step sb_step_ok).
+  unfold R_sb. cbn. exact I.
+Qed.
